@@ -14,6 +14,8 @@
 (*               Weight of probed k-mers P (weights PW), HasCycle,         *)
 (*               HaviestPath (path, as k-mers), LongestConsensus (cons,    *)
 (*               as digits; <<>> when it returned an error)                *)
+(*  kind "cons"  obiconsensus.BuildConsensus(S, k0, min_cov = 0): cons as   *)
+(*               digits, kused = the k-mer size it reports having used     *)
 (* TLC re-evaluates the definitions of Kmer.tla / DeBruijn.tla on the      *)
 (* logged arguments and judges the logged answers.  Stateless: one initial *)
 (* state per event, all workers validate in parallel; a rejected event is  *)
@@ -69,8 +71,22 @@ VerdictGraph(ev) ==
      ELSE IF Len(ev.S) = 1 /\ DistinctKmers(ev.S[1], ev.k) /\ ~ch[1] /\ ev.cons # SeqDigits(ev.S[1]) THEN "graph_single_unchanged"
      ELSE "ok"
 
+(* obiconsensus.BuildConsensus(S, k0, min_cov = 0) on two sequences or more: the graph of the k-mer size   *)
+(* the answer is annotated with (kused: k0 increased until the graph had no cycle) must indeed have no      *)
+(* cycle and the consensus must spell one of its heaviest walks.  Which k is reached is not judged.         *)
+VerdictCons(ev) ==
+  IF ev.pan = 1 THEN "consensus_build_panic"
+  ELSE IF ev.err = 1 \/ ev.kused > 31 THEN "ok"                   \* nothing returned / beyond the k of the property
+  ELSE IF ev.kused < ev.k0 THEN "consensus_build_kmer_size"
+  ELSE LET W  == WeightsFold(ev.S, ev.C, ev.kused)
+           N  == DOMAIN W
+           ch == CycleAndHeaviest(N, W)
+           jc == JudgeConsensus(ev.cons, ev.kused, N, W, ch)
+       IN IF jc = "ok" THEN "ok" ELSE "consensus_build_" \o jc
+
 Verdict(ev) ==
   CASE ev.kind = "idx"   -> VerdictIdx(ev)
+    [] ev.kind = "cons"  -> VerdictCons(ev)
     [] ev.kind = "four"  -> VerdictFour(ev)
     [] ev.kind = "graph" -> VerdictGraph(ev)
     [] OTHER -> "harness_unknown_event_kind"
